@@ -1,11 +1,14 @@
 (* C12 model: which value of a rate table applies on a date.
    Transcribed from tax/regime_def.go (RateDef.Value, RateValueDef.hasAnyTag, CategoryDef.RateDef,
-   RegimeDef.CategoryDef), tax/extensions.go (Extensions.Contains), cbc/key.go (Key.Has) and
-   tax/combo.go (Combo.calculateForRegime, Combo.prepareRate).
+   RegimeDef.CategoryDef), tax/extensions.go (Extensions.Contains), cbc/key.go (Key.Has, Key.HasPrefix)
+   and tax/combo.go (Combo.calculateForRegime, Combo.prepareRate).
 
    [value] is the code AFTER the proposed repair of defect #1 (a value takes effect ON its start
    date: `!date.Before(since)`); [value_shipped] is the comparison as shipped
    (`since.Before(date)`), kept for the `_refuted` theorem and for replaying the defect.
+   [rate_def] is CategoryDef.RateDef after the repair "a rate key is only resolved when its FIRST
+   component is a rate of the category" (second loop: key.HasPrefix(r.Key)); [rate_def_shipped] is
+   the second loop as shipped before it (key.Has(r.Key): any component), kept for the `_refuted` theorem.
    Model file: no proofs here (Rates/LookupProofs.v). *)
 From Coq Require Import List ZArith Bool Strings.Byte.
 From Verif Require Import Base.Wire Defs.DefTypes Rates.Date.
@@ -93,19 +96,42 @@ Fixpoint split_plus_aux (l cur : bytes) : list bytes :=
   end.
 Definition split_plus (k : bytes) : list bytes := split_plus_aux k [].
 
-(* cbc.Key.Has *)
+(* cbc.Key.Has: some `+`-separated part is ke *)
 Definition key_has (k ke : str) : bool := existsb (fun part => eqb_bytes part ke) (split_plus k).
+
+(* strings.SplitN(k, "+", 2): cut at the first `+` only *)
+Fixpoint split_plus_2_aux (l cur : bytes) : list bytes :=
+  match l with
+  | [] => [rev cur]
+  | b :: r => if bZ b =? 43 then [rev cur; r] else split_plus_2_aux r (b :: cur)
+  end.
+Definition split_plus_2 (k : bytes) : list bytes := split_plus_2_aux k [].
+
+(* cbc.Key.HasPrefix: ks := strings.SplitN(k, "+", 2); ks[0] == ke *)
+Definition key_has_prefix (k ke : str) : bool :=
+  match split_plus_2 k with
+  | p :: _ => eqb_bytes p ke
+  | [] => false
+  end.
+
+(* the first `+`-separated component of a key (the whole key when it has no `+`) *)
+Definition first_part (k : str) : str := hd [] (split_plus k).
 
 (* RegimeDef.CategoryDef *)
 Definition category_def (r : regime) (code : str) : option category :=
   find (fun c => eqb_bytes (cat_code c) code) (rg_categories r).
 
-(* CategoryDef.RateDef: exact match first, then the first rate whose key is a part of the given key *)
-Definition rate_def (c : category) (key : str) : option ratedef :=
+(* CategoryDef.RateDef: two loops over c.Rates - exact match first, then the first rate whose key
+   matches by [has] (after the repair: key.HasPrefix(r.Key), the rate key is the FIRST component) *)
+Definition rate_def_with (has : str -> str -> bool) (c : category) (key : str) : option ratedef :=
   match find (fun r => eqb_bytes (rt_key r) key) (cat_rates c) with
   | Some r => Some r
-  | None => find (fun r => key_has key (rt_key r)) (cat_rates c)
+  | None => find (fun r => has key (rt_key r)) (cat_rates c)
   end.
+
+Definition rate_def := rate_def_with key_has_prefix.
+(* as shipped before the repair: key.Has(r.Key), ANY component; kept for the `_refuted` theorem *)
+Definition rate_def_shipped := rate_def_with key_has.
 
 (* RegimeDefCollection.For: by country code or alternative country code *)
 Definition regime_for (regs : list (named regime)) (cc : str) : option regime :=
